@@ -99,22 +99,22 @@ m = {
     'setup_cmd': './setup.sh',
     'hooks': {
         'guard': 'verif',
-        'enable': 'no source hooks: every seam is a public interface; the only instrumentation (sync shim for C17 thorough) is injected with go build -overlay from files under /verif',
+        'enable': 'no source hooks: every seam is a public interface; the only instrumentation (the sync shim of C17, both tiers) is injected with go build -overlay from files under /verif',
         'baseline_off_cmd': './baseline.sh',
         'source_commits': [],
         'add_only': True,
     },
     'engines': [
-        {'name': 'E1', 'path': 'mc/', 'serves_properties': [c['property_id'] for c in checks if c['engine'] == 'E1'],
+        {'name': 'E1', 'path': 'mc/', 'serves_properties': [c['property_id'] for c in checks if 'E1' in c['engine']],
          'kind_free_text': 'hand-written stateless deviation-bounded DFS over Choose() points (environment answers, input deviations); reference model run in lock-step with the real code; 16 worker processes'},
-        {'name': 'E2', 'path': 'sched/', 'serves_properties': [c['property_id'] for c in checks if c['engine'] == 'E2'],
-         'kind_free_text': 'seam scheduler: parks the library goroutines inside harness RoundTripper/Fetcher/Cache, quiescence from goroutine dumps, all interleavings of seam operations enumerated by E1'},
+        {'name': 'E2', 'path': 'sched/', 'serves_properties': [c['property_id'] for c in checks if 'E2' in c['engine']],
+         'kind_free_text': 'seam scheduler: parks the library goroutines inside harness RoundTripper/Fetcher/Cache, quiescence from goroutine dumps (Settle() after side effects such as cancelling one caller), all interleavings of seam operations enumerated by E1; with the sync shim (go build -overlay) the WaitGroup epilogues are scheduling points too'},
         {'name': 'E3', 'path': 'mc/', 'serves_properties': [c['property_id'] for c in checks if c['engine'] == 'E3'],
          'kind_free_text': 'history explorer: every operation sequence up to a depth on one stateful object, replayed on a fresh instance per history, compared with a small state machine'},
     ],
     'checks': checks,
     'not_applicable': na,
-    'notes': 'All checks: exit 0 = held on everything explored; exit 1 + VIOLATION line = violation; exit 2 = harness error (never a verdict). known_findings.json lists recorded/fixed findings.',
+    'notes': 'All checks: exit 0 = held on everything explored; exit 1 + VIOLATION line = violation; exit 2/3 = harness error (never a verdict; a panic raised inside the library on the calling goroutine is a violation, not a harness error). known_findings.json lists recorded/fixed findings.',
 }
 json.dump(m, open('MANIFEST.json', 'w'), indent=1)
 print('claimed:', [c['property_id'] for c in checks], 'not yet:', [n['property_id'] for n in na])
